@@ -306,6 +306,9 @@ func registerHarnessAPI(e *Exec) {
 		"vRunSpawned": func(e *Exec, st *State, fn *ssa.Function, args []Value) []Outcome {
 			return e.runSpawned(st, 0)
 		},
+		"vLocksHeldNow": func(e *Exec, st *State, fn *ssa.Function, args []Value) []Outcome {
+			return ret(st, BV{e.tc.Int(int64(st.locks))})
+		},
 		"vSendCount": func(e *Exec, st *State, fn *ssa.Function, args []Value) []Outcome {
 			return ret(st, BV{e.tc.Int(int64(st.sends))})
 		},
@@ -359,6 +362,9 @@ func registerHarnessAPI(e *Exec) {
 				if key == "-" {
 					continue
 				}
+				if strings.Contains(tag, ",omitempty") && e.yamlEmpty(st, sv.F[i]) {
+					continue // the marshaller leaves an empty field out of the document
+				}
 				mo.Keys = append(mo.Keys, e.constString(key))
 				mo.Vals = append(mo.Vals, IfaceV{T: stt.Field(i).Type(), V: sv.F[i]})
 			}
@@ -392,7 +398,16 @@ func (e *Exec) runSpawned(st *State, n int) []Outcome {
 	sp := st.spawned[0]
 	st.spawned = append([]Spawn(nil), st.spawned[1:]...)
 	var outs []Outcome
-	for _, o := range e.callValue(st, sp.Fn, sp.Args, e.curDepth+1) {
+	e.inSpawned++
+	res := e.callValue(st, sp.Fn, sp.Args, e.curDepth+1)
+	e.inSpawned--
+	for _, o := range res {
+		if o.panicked && o.st.parked {
+			o.st.parked = false
+			o.st.panicVal, o.st.pending = nil, nil
+			outs = append(outs, e.runSpawned(o.st, n+1)...)
+			continue
+		}
 		if o.panicked {
 			outs = append(outs, o)
 			continue
@@ -600,3 +615,43 @@ func sortedKeys(m map[string]int) []string {
 }
 
 var _ = strings.Join
+
+// yamlEmpty: the YAML library's notion of an empty value for omitempty (nil or zero-length map/slice/string, zero
+// number, false, nil pointer). Anything not decidable syntactically is reported, never guessed.
+func (e *Exec) yamlEmpty(st *State, v Value) bool {
+	switch x := v.(type) {
+	case MapV:
+		if x.Obj < 0 {
+			return true
+		}
+		mo, _ := st.heap[x.Obj].(MapObj)
+		return len(mo.Keys) == 0
+	case SliceV:
+		if x.Base.IsNil() {
+			return true
+		}
+		if x.Len.konst {
+			return x.Len.cv == 0
+		}
+	case StringV:
+		if x.Len.konst {
+			return x.Len.cv == 0
+		}
+	case BV:
+		if x.T.konst {
+			return x.T.cv == 0
+		}
+	case BoolV:
+		if x.T.IsTrue() {
+			return false
+		}
+		if x.T.IsFalse() {
+			return true
+		}
+	case Ptr:
+		return x.IsNil()
+	case ArrayV, ByteArr, StructV:
+		return false
+	}
+	panic(unsupported("vTagMap: cannot decide whether an omitempty field is empty (%T)", v))
+}
